@@ -246,12 +246,39 @@ func (ti *tlsInterp) exec(stmts []ast.Stmt) bool {
 
 // configISV: the InsecureSkipVerify of the config expression e (a variable, or a helper call that returns one).
 func (ti *tlsInterp) configISV(e ast.Expr) tri {
-	if c, ok := ast.Unparen(e).(*ast.CallExpr); ok {
-		if v, handled := ti.callConfig(c); handled {
-			return v
-		}
+	if v, ok := ti.configValue(ast.Unparen(e)); ok {
+		return v
 	}
 	return ti.store[exprStr(e)+".InsecureSkipVerify"]
+}
+
+// configValue: the InsecureSkipVerify of a config-producing expression: a helper call, a literal, a Clone().
+func (ti *tlsInterp) configValue(r ast.Expr) (tri, bool) {
+	// helper(...): a function of this package that builds / returns the config
+	if c, ok := r.(*ast.CallExpr); ok {
+		if v, handled := ti.callConfig(c); handled {
+			return v, true
+		}
+	}
+	// &tls.Config{InsecureSkipVerify: e}
+	if u, ok := r.(*ast.UnaryExpr); ok && u.Op == token.AND {
+		if cl, ok := ast.Unparen(u.X).(*ast.CompositeLit); ok {
+			v := triFalse // zero value
+			for _, el := range cl.Elts {
+				if kv, ok := el.(*ast.KeyValueExpr); ok && exprStr(kv.Key) == "InsecureSkipVerify" {
+					v = ti.eval(kv.Value)
+				}
+			}
+			return v, true
+		}
+	}
+	// X.Clone()
+	if c, ok := r.(*ast.CallExpr); ok {
+		if sel, ok := ast.Unparen(c.Fun).(*ast.SelectorExpr); ok && sel.Sel.Name == "Clone" {
+			return ti.store[exprStr(sel.X)+".InsecureSkipVerify"], true
+		}
+	}
+	return triUnknown, false
 }
 
 // callConfig interprets a call of a function of this package that returns a *tls.Config: its body is
@@ -338,32 +365,9 @@ func (ti *tlsInterp) assign(l, r ast.Expr) {
 	if typeNameOf(ti.info.TypeOf(l)) != "Config" {
 		return
 	}
-	// var = helper(...): a function of this package that builds / returns the config
-	if c, ok := r.(*ast.CallExpr); ok {
-		if v, handled := ti.callConfig(c); handled {
-			ti.store[id.Name+".InsecureSkipVerify"] = v
-			return
-		}
-	}
-	// var = &tls.Config{InsecureSkipVerify: e}
-	if u, ok := r.(*ast.UnaryExpr); ok && u.Op == token.AND {
-		if cl, ok := ast.Unparen(u.X).(*ast.CompositeLit); ok {
-			v := triFalse // zero value
-			for _, el := range cl.Elts {
-				if kv, ok := el.(*ast.KeyValueExpr); ok && exprStr(kv.Key) == "InsecureSkipVerify" {
-					v = ti.eval(kv.Value)
-				}
-			}
-			ti.store[id.Name+".InsecureSkipVerify"] = v
-			return
-		}
-	}
-	// var = X.Clone()
-	if c, ok := r.(*ast.CallExpr); ok {
-		if sel, ok := ast.Unparen(c.Fun).(*ast.SelectorExpr); ok && sel.Sel.Name == "Clone" {
-			ti.store[id.Name+".InsecureSkipVerify"] = ti.store[exprStr(sel.X)+".InsecureSkipVerify"]
-			return
-		}
+	if v, ok := ti.configValue(r); ok {
+		ti.store[id.Name+".InsecureSkipVerify"] = v
+		return
 	}
 	// var = other var / expression of type *tls.Config
 	if v, ok := ti.store[exprStr(r)+".InsecureSkipVerify"]; ok {
@@ -798,11 +802,29 @@ func c20r4(p *Program, r *Report) {
 				n++
 				// `if !pool.AppendCertsFromPEM(pem) { return nil, err }`
 				okRet := false
+				returnsErr := func(ifs *ast.IfStmt) bool {
+					if len(ifs.Body.List) == 0 {
+						return false
+					}
+					rs, ok := ifs.Body.List[len(ifs.Body.List)-1].(*ast.ReturnStmt)
+					return ok && len(rs.Results) >= 1 && !isNil(info, rs.Results[len(rs.Results)-1])
+				}
 				if u, ok := p.Parent(c).(*ast.UnaryExpr); ok && u.Op == token.NOT {
-					if ifs, ok := p.Parent(u).(*ast.IfStmt); ok && len(ifs.Body.List) > 0 {
-						if rs, ok := ifs.Body.List[len(ifs.Body.List)-1].(*ast.ReturnStmt); ok && len(rs.Results) >= 1 && !isNil(info, rs.Results[len(rs.Results)-1]) {
-							okRet = true
-						}
+					if ifs, ok := p.Parent(u).(*ast.IfStmt); ok && ast.Unparen(ifs.Cond) == ast.Expr(u) && returnsErr(ifs) {
+						okRet = true
+					}
+				}
+				// `ok := pool.AppendCertsFromPEM(pem)` ... `if !ok { return err }` (ok assigned once)
+				if as, ok := p.Parent(c).(*ast.AssignStmt); ok && len(as.Lhs) == 1 && len(as.Rhs) == 1 {
+					if bid, isId := as.Lhs[0].(*ast.Ident); isId && info.Defs[bid] != nil && singleAssigned(info, fi.Decl.Body, info.Defs[bid]) {
+						ast.Inspect(fi.Decl.Body, func(m ast.Node) bool {
+							if ifs, isIf := m.(*ast.IfStmt); isIf && (ifs.Init == ast.Stmt(as) || ifs.Pos() > as.End()) {
+								if u, isU := ast.Unparen(ifs.Cond).(*ast.UnaryExpr); isU && u.Op == token.NOT && isIdentOf(info, u.X, info.Defs[bid]) && returnsErr(ifs) {
+									okRet = true
+								}
+							}
+							return true
+						})
 					}
 				}
 				r.Check(okRet, c, "setupTLSConfig reports an unparsable CA file", "error returned when no certificate could be parsed", "an unparsable CA file is silently ignored: connections are verified against the system roots only")
@@ -857,6 +879,21 @@ func c20r5(p *Program, r *Report) {
 			if v && strings.HasPrefix(atom, "approve(") {
 				approved = true
 			}
+			// a boolean local that holds the verdict
+			if v && approved == false {
+				ast.Inspect(fi.Decl.Body, func(m ast.Node) bool {
+					if id, isId := m.(*ast.Ident); isId && id.Name == atom {
+						if obj := info.Uses[id]; obj != nil && singleAssigned(info, fi.Decl.Body, obj) {
+							if d := localDef(info, fi, id); d != nil {
+								if dc, isC := ast.Unparen(d).(*ast.CallExpr); isC && isCallTo(info, dc, "approve") {
+									approved = true
+								}
+							}
+						}
+					}
+					return !approved
+				})
+			}
 		}
 		r.Check(approved, rs, "(PasswordAuthenticator).Challenge returns credentials only to an approved authenticator", "dominated by approve(class, allowed) == true",
 			"a response token (user name and password) is returned on a path where approve() did not accept the server's authenticator class: credentials are sent to any authenticator a (possibly rogue) server names")
@@ -873,6 +910,7 @@ func c20r5(p *Program, r *Report) {
 	ainfo := ag.Info
 	afacts := ag.GuardFacts()
 	listParam := paramObj(ainfo, ap.Decl.Type, 1)
+	classParam := paramObj(ainfo, ap.Decl.Type, 0)
 	nfb := 0
 	ast.Inspect(ap.Decl.Body, func(x ast.Node) bool {
 		as, ok := x.(*ast.AssignStmt)
@@ -895,7 +933,7 @@ func c20r5(p *Program, r *Report) {
 			f, _ := afacts.Before(rs)
 			eq := false
 			for atom, val := range f.m {
-				if val && strings.Contains(atom, " == ") && strings.Contains(atom, "authenticator") {
+				if val && strings.Contains(atom, " == ") && classParam != nil && mentions(atom, classParam.Name()) {
 					eq = true
 				}
 			}
@@ -939,9 +977,31 @@ func c20r6(p *Program, r *Report) {
 		info := fi.Pkg.TypesInfo
 		// first statement refuses a nil authenticator
 		okFirst := false
-		if len(fi.Decl.Body.List) > 0 {
-			if ifs, ok := fi.Decl.Body.List[0].(*ast.IfStmt); ok {
-				if b, ok := ast.Unparen(ifs.Cond).(*ast.BinaryExpr); ok && b.Op == token.EQL && isNil(info, b.Y) && p.isField(info, b.X, "Conn", "auth") {
+		// the first statement that is not a call-free binding of a local
+		first := 0
+		for first < len(fi.Decl.Body.List) {
+			as, isAs := fi.Decl.Body.List[first].(*ast.AssignStmt)
+			if !isAs || as.Tok != token.DEFINE || len(callsIn(as)) > 0 {
+				break
+			}
+			first++
+		}
+		isAuth := func(e ast.Expr) bool {
+			if p.isField(info, e, "Conn", "auth") {
+				return true
+			}
+			if id, isId := ast.Unparen(e).(*ast.Ident); isId {
+				if obj := info.Uses[id]; obj != nil && singleAssigned(info, fi.Decl.Body, obj) {
+					if d := localDef(info, fi, id); d != nil && p.isField(info, d, "Conn", "auth") {
+						return true
+					}
+				}
+			}
+			return false
+		}
+		if first < len(fi.Decl.Body.List) {
+			if ifs, ok := fi.Decl.Body.List[first].(*ast.IfStmt); ok {
+				if b, ok := ast.Unparen(ifs.Cond).(*ast.BinaryExpr); ok && b.Op == token.EQL && isNil(info, b.Y) && isAuth(b.X) {
 					if len(ifs.Body.List) > 0 {
 						if rs, ok := ifs.Body.List[len(ifs.Body.List)-1].(*ast.ReturnStmt); ok && len(rs.Results) == 1 && !isNil(info, rs.Results[0]) {
 							okFirst = true
